@@ -440,7 +440,7 @@ def correspond_fw(run, corr, rng, n_fw):
     # the C code is only executed where its behaviour is defined (model: no oob / divzero outcome)
     defined = [(r, m) for r, m in zip(freqs, fmodel) if not (m.startswith("oob-") or m == "divzero")]
     undefined = len(freqs) - len(defined)
-    fimpl = vf.run_lines([exe], [r for r, _ in defined])
+    fimpl = vf.run_lines_crash_safe([exe], [r for r, _ in defined])
     # "skip": a static helper the request addresses directly does not exist in this tree and the question cannot be put
     # through rfch_get_params() either (counted; the model's answer stands alone there)
     nskip = sum(1 for a in fimpl if a == "skip")
@@ -587,7 +587,7 @@ def check_disagreements(run, exe):
                 if 0 <= hsn <= 63 and 1 <= n <= 64 and n == len(ma) and 0 <= maio <= 63 and 0 <= fn < H \
                         and all(0 <= a < 65536 for a in ma):
                     want = "ok %d" % ma[spec_mai(hsn, maio, n, fn)]
-                    got = vf.run_lines([exe], [d["request"]])[0] if exe else want
+                    got = vf.run_lines_crash_safe([exe], [d["request"]])[0] if exe else want
                     if got != want:
                         wit.append({"kind": "fw-hop", "hsn": hsn, "maio": maio, "n": n, "fn": fn, "ma": ma,
                                     "impl": got, "spec_mai": spec_mai(hsn, maio, n, fn), "spec": want})
@@ -721,7 +721,7 @@ def replay(run, path):
             got = vf.run_lines(py_cmd(), ["hop.py %d %d %d %s" % (hsn, maio, fn, fmt_pairs(ma))])[0]
             want = "ok %d %d" % ma[mai]
         else:
-            got = vf.run_lines([exe], ["hop.fwfn %d %d %d %d %s" % (hsn, maio, n, fn, fmt_list(w["ma"]))])[0]
+            got = vf.run_lines_crash_safe([exe], ["hop.fwfn %d %d %d %d %s" % (hsn, maio, n, fn, fmt_list(w["ma"]))])[0]
             want = "ok %d" % w["ma"][mai]
         print("replay %s hsn=%d maio=%d N=%d fn=%d: impl=%s  standard: MAI=%d -> %s" % (w["kind"], hsn, maio, n, fn, got, mai, want))
         bad += got != want
